@@ -279,8 +279,13 @@ def run(repo: Repo, chk: Check, thorough: bool = False) -> None:
             continue
         n_ov += 1
         rets = [n for n in f.walk() if isinstance(n, ast.Return) and n.value is not None]
-        consults = [r for r in rets if any((isinstance(x, ast.Call) and call_name(x) == 'privacyClass') or
-                                           (isinstance(x, ast.Attribute) and x.attr == 'privacyClass' and 'super()' in norm(x.value)) for x in ast.walk(r.value))]
+        def _arms(e: ast.AST) -> List[ast.AST]:
+            return _arms(e.body) + _arms(e.orelse) if isinstance(e, ast.IfExp) else [e]
+
+        def _consults(e: ast.AST) -> bool:
+            return any((isinstance(x, ast.Call) and call_name(x) == 'privacyClass') or
+                       (isinstance(x, ast.Attribute) and x.attr == 'privacyClass' and 'super()' in norm(x.value)) for x in ast.walk(e))
+        consults = [r for r in rets if all(_consults(a) for a in _arms(r.value))]
         chk.ob('R13.2', f'{f.qn} :: every answer comes from the rule evaluation', bool(rets) and len(consults) == len(rets),
                'defers to System.privacyClass / the inherited property on every path' if rets and len(consults) == len(rets) else
                f'`{norm([r for r in rets if r not in consults][0])}` answers without looking at the --privacy rules: a HIDDEN: (or PUBLIC:) rule naming such an object '
